@@ -102,7 +102,14 @@ func (m *sliceMem) Reallocate(size uint64) []byte {
 	m.buf = nb
 	return nb
 }
-func (m *sliceMem) Free() {}
+// Free poisons the buffer (an allocator that unmaps would fault instead): code that still runs on this
+// memory reads 0xEE bytes.
+func (m *sliceMem) Free() {
+	full := m.buf[:cap(m.buf)]
+	for i := range full {
+		full[i] = 0xEE
+	}
+}
 
 type nopListener struct{ n *int }
 
@@ -149,6 +156,18 @@ func pairLib() []byte {
 	m.Datas = []wasmb.Data{{Offset: wasmb.ConstI32(16), Bytes: []byte{0xBB}}}
 	c := (&wasmb.Code{}).Loop(wasmb.BlockVoid).LocalGet(0).I32Const(1).I32Sub().LocalTee(0).I32Const(0).I32GtS().BrIf(0).End().I32Const(7)
 	m.AddFunc(i32, i32, nil, c.B, "work")
+	// chk() = byte 16 of lib's memory (0xBB); the memory is exported for a third module to import
+	m.AddFunc(nil, i32, nil, (&wasmb.Code{}).I32Const(16).I32Load8U(0).B, "chk")
+	m.Exports = append(m.Exports, wasmb.Export{Name: "mem", Kind: wasmb.KindMemory, Idx: 0})
+	return m.Encode()
+}
+
+// pairBad imports lib's memory and then a function that does not exist: its instantiation fails after
+// the memory import was resolved.  lib and app go on as if it had never been tried.
+func pairBad() []byte {
+	m := &wasmb.Module{}
+	m.Imports = append(m.Imports, wasmb.Import{Module: "lib", Name: "mem", Kind: wasmb.KindMemory, Mem: wasmb.Limits{Min: 1, Max: 2, HasMax: true}})
+	m.ImportFunc("lib", "nosuch", nil, nil)
 	return m.Encode()
 }
 
@@ -157,6 +176,8 @@ func pairApp() []byte {
 	i32 := []wasmb.ValType{wasmb.I32}
 	work := m.ImportFunc("lib", "work", i32, i32)
 	peek := m.ImportFunc("env", "peek", nil, i32)
+	chk := m.ImportFunc("lib", "chk", nil, i32)
+	m.AddFunc(nil, i32, nil, (&wasmb.Code{}).Call(chk).B, "libbyte")
 	m.Mem = &wasmb.Limits{Min: 1, Max: 2, HasMax: true}
 	m.Datas = []wasmb.Data{{Offset: wasmb.ConstI32(16), Bytes: []byte{0xAA}}}
 	m.AddFunc(i32, i32, nil, (&wasmb.Code{}).LocalGet(0).Call(work).Call(peek).I32Add().B, "run")
@@ -340,6 +361,22 @@ func runOne(engine string, d rtDesc, shared wazero.CompilationCache, dir string,
 			if step == 2 {
 				lib.Close(ctx) // its exported function stays callable through app's import
 				trace = append(trace, "pair: lib closed")
+			}
+			if step == 1 {
+				// a third module that imports lib's memory fails to instantiate (a later import is missing)
+				_, berr := rt.InstantiateWithConfig(cctx, pairBad(), wazero.NewModuleConfig().WithName("bad"))
+				trace = append(trace, fmt.Sprintf("pair: importer of lib's memory failed=%v", berr != nil))
+			}
+			if step < 2 {
+				// (while lib is open: what its code reads from its memory)
+				res, err := callContained(app.ExportedFunction("libbyte"), cctx)
+				line := fmt.Sprintf("pair.app.libbyte() #%d -> ", step)
+				if err != nil {
+					line += "error: " + strings.SplitN(err.Error(), "\n", 2)[0]
+				} else {
+					line += fmt.Sprintf("%#x", uint32(res[0]))
+				}
+				trace = append(trace, line)
 			}
 			res, err := app.ExportedFunction("run").Call(cctx, 3)
 			line := fmt.Sprintf("pair.app.run(3) #%d -> ", step)
